@@ -21,6 +21,7 @@ import (
 	"sync"
 	"text/template"
 	"unicode"
+	"unicode/utf8"
 
 	"github.com/pointlander/peg/set"
 )
@@ -661,8 +662,16 @@ func (t *Tree) Compile(file string, args []string, out io.Writer) (err error) {
 			}
 		}
 	}
-	/* sort imports to satisfy gofmt, and drop the ones the grammar repeats */
-	slices.Sort(t.Imports)
+	/* sort imports by path to satisfy gofmt (entries are "path" or "path=alias"),
+	   and drop the ones the grammar repeats */
+	slices.SortFunc(t.Imports, func(a, b string) int {
+		pathA, _, _ := strings.Cut(a, "=")
+		pathB, _, _ := strings.Cut(b, "=")
+		if c := strings.Compare(pathA, pathB); c != 0 {
+			return c
+		}
+		return strings.Compare(a, b)
+	})
 	t.Imports = slices.Compact(t.Imports)
 
 	/* second pass */
@@ -800,7 +809,8 @@ func (t *Tree) Compile(file string, args []string, out io.Writer) (err error) {
 					} else {
 						class := &node{Type: TypeUnorderedAlternate}
 						for d := range unicode.MaxRune {
-							if properties[i].s.Has(d) {
+							/* surrogates cannot occur in the rune buffer and all print as U+FFFD */
+							if properties[i].s.Has(d) && utf8.ValidRune(d) {
 								class.PushBack(&node{Type: TypeCharacter, string: string(d)})
 							}
 						}
@@ -1173,7 +1183,13 @@ func (t *Tree) Compile(file string, args []string, out io.Writer) (err error) {
 			elements[0].SetParentDetect(n.ParentDetect())
 			elements[0].SetParentMultipleKey(n.ParentMultipleKey())
 			for _, element := range elements {
-				labelLast = compile(element, ko)
+				last := compile(element, ko)
+				switch element.GetType() {
+				case TypeNil, TypeAction, TypeComment, TypeCommit:
+					/* nothing was printed: what came before still ends the text */
+				default:
+					labelLast = last
+				}
 			}
 		case TypePeekFor:
 			ok := label
